@@ -350,10 +350,15 @@ def check_ngram_stage(ctx, c):
     exp, _, _, _, _ = model(grams, P)
     kw = {}
     for k, v in P.items():
-        kw[k] = fbound(v, G) if k.endswith("frequency") else v
+        kw[k] = (fbound(v, len(docs)) if "document" in k else fbound(v, G)) if k.endswith("frequency") else v
     # token-stage must not prune anything: occurrence bounds are chosen so that every token passes (checked)
     tcnt = collections.Counter(t for d in docs for t in d)
+    tdoc = collections.Counter(t for d in docs for t in set(d))
     T = sum(tcnt.values())
+    for t, dn in tdoc.items():
+        if ("min_document_occurrences" in kw and dn < kw["min_document_occurrences"]) or \
+           ("min_document_frequency" in kw and Fraction(dn, len(docs)) < Fraction(kw["min_document_frequency"])):
+            return ctx.skip("token stage would prune too (case not isolating the n-gram stage)")
     for t, cn in tcnt.items():
         if ("min_occurrences" in kw and cn < kw["min_occurrences"]) or ("max_occurrences" in kw and cn > kw["max_occurrences"]) or \
            ("min_frequency" in kw and Fraction(cn, T) < Fraction(kw["min_frequency"])) or ("max_frequency" in kw and Fraction(cn, T) > Fraction(kw["max_frequency"])):
@@ -434,7 +439,14 @@ def run_vocab(ctx):
             continue
         cv = sorted(set(collections.Counter(grams).values()))
         P2 = {}
-        pick = r.choice(["min_occ", "max_occ", "min_f", "max_f", "both"])
+        pick = r.choice(["min_occ", "max_occ", "min_f", "max_f", "both", "min_doc", "min_docf"])
+        dv = sorted(set(collections.Counter(g for d in docs for g in set(tuple(d[j : j + n]) for j in range(len(d) - n + 1))).values()))
+        if pick == "min_doc":
+            P2["min_document_occurrences"] = r.choice(dv)
+        if pick == "min_docf":
+            P2["min_document_frequency"] = {"kind": r.choice(["exact", "mid"]) if r.choice(dv) < len(docs) else "exact", "c": r.choice(dv)}
+            if P2["min_document_frequency"]["c"] >= len(docs):
+                P2["min_document_frequency"]["kind"] = "exact"
         if pick in ("min_occ", "both"):
             P2["min_occurrences"] = r.choice(cv)
         if pick == "max_occ":
@@ -471,10 +483,17 @@ def run_exh(ctx):
             ]
             if c > 1:
                 tests += [(dict(max_occurrences=c - 1), False), (dict(max_frequency=(c - 1) / T), False)]
+            if (c + T) % 7 == 0:
+                # the same bound given both ways (documented: both may be passed when they agree)
+                tests += [(dict(min_occurrences=c, min_frequency=c / n), True), (dict(max_occurrences=c, max_frequency=c / n), True)]
             for kw, want in tests:
                 if want is None:
                     continue
-                nd, _ = prune_token_dictionary(dict(d), f, total_tokens=n, **{**base, **kw})
+                try:
+                    nd, _ = prune_token_dictionary(dict(d), f, total_tokens=n, **{**base, **kw})
+                except AssertionError:
+                    nd = {}  # a consistent pair of bounds must not be rejected
+                    ctx.count("consistent_bounds_rejected")
                 ctx.count("exhaustive_pairs")
                 if ("a" in nd) != want:
                     bad.append((c, T, kw, want))
